@@ -728,6 +728,23 @@ func operandClosure(v ssa.Value, visit func(ssa.Value)) {
 		}
 		seen[x] = true
 		visit(x)
+		// what was stored into a local (a variadic pack, a literal, a spilled variable)
+		if al, isA := x.(*ssa.Alloc); isA {
+			for _, r := range *al.Referrers() {
+				switch y := r.(type) {
+				case *ssa.Store:
+					if y.Addr == ssa.Value(al) {
+						walk(y.Val)
+					}
+				case *ssa.IndexAddr, *ssa.FieldAddr:
+					for _, rr := range *y.(ssa.Value).Referrers() {
+						if st, isS := rr.(*ssa.Store); isS && st.Addr == y.(ssa.Value) {
+							walk(st.Val)
+						}
+					}
+				}
+			}
+		}
 		in, ok := x.(ssa.Instruction)
 		if !ok {
 			return
@@ -846,6 +863,229 @@ func ruleLinkPerRun(c *Ctx) []Obligation {
 			obs = append(obs, bad(R, con, c.InstrPos(at), "the links are cleared only in "+strings.Join(ns, ", ")+": a loaded submodule revision that is no longer included (or a module, respectively) keeps the links of an earlier run, so loading in two steps resolves names that loading at once reports as unknown"))
 		default:
 			obs = append(obs, bad(R, con, c.InstrPos(site.(ssa.Instruction)), "the links are only ever set: a statement that this run does not link (its submodule revision is no longer included, or linking failed before it was reached) keeps the link of an earlier run, so loading in two steps resolves names that loading at once reports as unknown"))
+		}
+	}
+	return obs
+}
+
+// ---------------------------------------------------------------- AUG.TARGETKIND, FIND.SUBROOT (hunt/h2/C07)
+
+func init() {
+	register(&Rule{Name: "AUG.TARGETKIND", Props: []string{"C07"}, Floor: 3,
+		Doc: "an augment is merged only into a target that may have children: not into anydata, anyxml, or the entry of an rpc or action itself",
+		Run: ruleAugTargetKind})
+	register(&Rule{Name: "FIND.SUBROOT", Props: []string{"C07", "C17"}, Floor: 1,
+		Doc: "an absolute path switches to the tree of the module its first step belongs to also when that step has no prefix and the path was written in a submodule",
+		Run: ruleFindSubRoot})
+}
+
+func ruleAugTargetKind(c *Ctx) []Obligation {
+	const R = "AUG.TARGETKIND"
+	aug := c.Fn("yang.(*Entry).Augment")
+	merge := c.mergeFn()
+	entry := c.MustNamed("yang", "Entry")
+	fKind, fRPC := FieldVar(entry, "Kind"), FieldVar(entry, "RPC")
+	if aug == nil || merge == nil || fKind == nil || fRPC == nil {
+		return []Obligation{undecided(R, "augment applier", "-", "Augment / the link function / Entry.Kind / Entry.RPC not found")}
+	}
+	kindConst := func(name string) (int64, bool) {
+		k, _ := c.YangPkg().Scope().Lookup(name).(*types.Const)
+		if k == nil {
+			return 0, false
+		}
+		var v int64
+		_, err := fmt.Sscan(k.Val().ExactString(), &v)
+		return v, err == nil
+	}
+	var obs []Obligation
+	for _, ci := range c.callsToDeep(aug, merge) {
+		site := ci.(ssa.Instruction)
+		if len(ci.Common().Args) == 0 {
+			continue
+		}
+		target := ci.Common().Args[0]
+		// what holds at the merge: the dominating conditions, and — where a condition is a call of one of the repo's
+		// own predicates on the target (`if !target.holdsChildren()`) — what that predicate's result implies
+		type fact struct {
+			Guard
+			via *ssa.Call
+		}
+		var gs []fact
+		for _, g := range guardsAtDeep(site.Block()) {
+			gs = append(gs, fact{g, nil})
+			cond, br := stripNot(g.Cond, g.Branch)
+			call, isC := cond.(*ssa.Call)
+			if !isC {
+				continue
+			}
+			h := call.Call.StaticCallee()
+			if h == nil || !c.isRepoFn(h) || h.Blocks == nil || h.Signature.Results().Len() != 1 || !isBoolType(h.Signature.Results().At(0).Type()) {
+				continue
+			}
+			var rets []*ssa.Return
+			eachInstr(h, func(in ssa.Instruction) {
+				if r, isR := in.(*ssa.Return); isR {
+					rets = append(rets, r)
+				}
+			})
+			if len(rets) != 1 {
+				continue
+			}
+			v := rets[0].Results[0]
+			gs = append(gs, fact{Guard{Cond: v, Branch: br}, call})
+			for _, eg := range expandPhiGuard(v, br, nil, 0) {
+				gs = append(gs, fact{eg, call})
+			}
+		}
+		isTarget := func(base ssa.Value, via *ssa.Call) bool {
+			if via == nil {
+				return sameObject(base, target)
+			}
+			h := via.Call.StaticCallee()
+			for k := range h.Params {
+				if isParamN(h, base, k) && k < len(via.Call.Args) && sameObject(via.Call.Args[k], target) {
+					return true
+				}
+			}
+			return false
+		}
+		excludedKind := func(k int64) bool {
+			for _, g := range gs {
+				bo, okb := g.Cond.(*ssa.BinOp)
+				if !okb {
+					continue
+				}
+				_, f, base := loadedField(bo.X)
+				if f != fKind || !isTarget(base, g.via) {
+					continue
+				}
+				kv, okk := constInt(bo.Y)
+				if !okk || kv != k {
+					continue
+				}
+				if bo.Op == token.EQL && !g.Branch || bo.Op == token.NEQ && g.Branch {
+					return true
+				}
+			}
+			return false
+		}
+		for _, kn := range []string{"AnyDataEntry", "AnyXMLEntry"} {
+			con := fmt.Sprintf("Augment: nothing is merged into a target of kind %s", kn)
+			k, okk := kindConst(kn)
+			switch {
+			case !okk:
+				obs = append(obs, undecided(R, con, c.InstrPos(site), "kind constant not found"))
+			case excludedKind(k):
+				obs = append(obs, ok(R, con, c.InstrPos(site), "the merge is reached only with target.Kind != "+kn))
+			default:
+				obs = append(obs, bad(R, con, c.InstrPos(site), "the only test before the merge is that the target has a directory, and entries of this kind are built with an empty one: the augment is accepted silently and the node gains children it cannot have (RFC 7950 7.17)"))
+			}
+		}
+		con := "Augment: nothing is merged into the entry of an rpc or action itself"
+		rpcOut := false
+		for _, g := range gs {
+			x, isEq, okn := nilTest(g.Cond)
+			if !okn {
+				continue
+			}
+			if _, f, base := loadedField(x); f == fRPC && isTarget(base, g.via) && isEq == g.Branch {
+				rpcOut = true
+			}
+		}
+		if rpcOut {
+			obs = append(obs, ok(R, con, c.InstrPos(site), "the merge is reached only with target.RPC == nil"))
+		} else {
+			obs = append(obs, bad(R, con, c.InstrPos(site), "an rpc or action entry has an empty directory of its own, next to input and output: the augment's nodes are grafted there, where no schema path can address them, and nothing is reported"))
+		}
+	}
+	return obs
+}
+
+func ruleFindSubRoot(c *Ctx) []Obligation {
+	const R = "FIND.SUBROOT"
+	find := c.Fn("yang.(*Entry).Find")
+	fmp := c.Fn("yang.FindModuleByPrefix")
+	gp := c.Fn("yang.getPrefix")
+	con := "yang.(*Entry).Find: the module switch of an absolute path does not depend on the first step having a prefix"
+	if find == nil || fmp == nil || gp == nil {
+		return []Obligation{undecided(R, con, "-", "Find / FindModuleByPrefix / getPrefix not found")}
+	}
+	var obs []Obligation
+	for _, ci := range c.callsToDeep(find, fmp) {
+		site := ci.(ssa.Instruction)
+		if loopHeaderOf(site.Block()) != nil {
+			continue // per-step lookups, if any
+		}
+		// a dominating condition `prefix != ""` (prefix: first result of getPrefix) means an unprefixed path never
+		// switches
+		only := false
+		for _, g := range guardsAtDeep(site.Block()) {
+			bo, okb := g.Cond.(*ssa.BinOp)
+			if !okb {
+				continue
+			}
+			ex, okx := bo.X.(*ssa.Extract)
+			if !okx || ex.Index != 0 {
+				continue
+			}
+			call, okc := ex.Tuple.(*ssa.Call)
+			if !okc || call.Call.StaticCallee() != gp {
+				continue
+			}
+			if s, oks := constString(bo.Y); oks && s == "" && (bo.Op == token.NEQ && g.Branch || bo.Op == token.EQL && !g.Branch) {
+				only = true
+			}
+		}
+		if only {
+			obs = append(obs, bad(R, con, c.InstrPos(site), "the tree of the module is entered only under prefix != \"\": a path written in a submodule without a prefix (augment \"/sc\") is resolved in the submodule's private tree — the augment is grafted onto that copy and never reaches the module, or, when the target is defined in the module itself, is reported as not found"))
+		} else {
+			obs = append(obs, ok(R, con, c.InstrPos(site), "the switch is also reached without a prefix (context in a submodule)"))
+		}
+	}
+	return obs
+}
+
+// ---------------------------------------------------------------- CHOICE.AFTERAUG (hunt/h2/C04)
+
+func init() {
+	register(&Rule{Name: "CHOICE.AFTERAUG", Props: []string{"C04", "C07"}, Floor: 2,
+		Doc: "every pass that applies augments is followed by a pass that inserts implicit cases: no augment can leave a non-case member in a choice",
+		Run: ruleChoiceAfterAug})
+}
+
+func ruleChoiceAfterAug(c *Ctx) []Obligation {
+	const R = "CHOICE.AFTERAUG"
+	proc := c.Fn("yang.(*Modules).Process")
+	fix := c.Fn("yang.(*Entry).FixChoice")
+	aug := c.Fn("yang.(*Entry).Augment")
+	if proc == nil || fix == nil || aug == nil {
+		return []Obligation{undecided(R, "augment passes", "-", "Process / FixChoice / Augment not found")}
+	}
+	// Augment itself may insert the cases on the target
+	selfFix := c.Reach([]*ssa.Function{aug}, nil)[fix]
+	after := func(a, f ssa.Instruction) bool {
+		if a.Parent() != f.Parent() {
+			return false
+		}
+		if a.Block() == f.Block() {
+			return dominates(a, f)
+		}
+		return blockReaches(a.Block(), f.Block(), nil) && !blockReaches(f.Block(), a.Block(), nil)
+	}
+	fixes := c.callsToDeep(proc, fix)
+	var obs []Obligation
+	for i, a := range c.callsToDeep(proc, aug) {
+		con := fmt.Sprintf("Process: augment pass #%d is followed by a FixChoice pass", i+1)
+		followed := selfFix
+		for _, f := range fixes {
+			if after(a.(ssa.Instruction), f.(ssa.Instruction)) {
+				followed = true
+			}
+		}
+		if followed {
+			obs = append(obs, ok(R, con, c.InstrPos(a.(ssa.Instruction)), "a FixChoice call lies after the pass on every continuation"))
+		} else {
+			obs = append(obs, bad(R, con, c.InstrPos(a.(ssa.Instruction)), "augments applied by this pass are never followed by FixChoice: a node such an augment adds to a choice stays a direct child of the choice, without its case (an augment whose path leads through an implicit case is applied only by the pass that reports the remaining augments)"))
 		}
 	}
 	return obs
